@@ -1,10 +1,21 @@
 // Copyright Amazon.com, Inc. or its affiliates. All Rights Reserved.
 // SPDX-License-Identifier: Apache-2.0
 
+#[cfg(not(metrique_verif_loom))]
 use std::{
     collections::HashMap,
     fmt::{Debug, Formatter},
     sync::{Arc, RwLock},
+};
+// verification builds only: the unit table's lock is scheduler-visible
+#[cfg(metrique_verif_loom)]
+use {
+    metrique_writer_core::__verif::sync::RwLock,
+    std::{
+        collections::HashMap,
+        fmt::{Debug, Formatter},
+        sync::Arc,
+    },
 };
 
 use crate::{MetricsRsVersion, metrics_histogram::Bucket};
